@@ -191,3 +191,13 @@ Proof.
                             | simpl; erewrite sl_get_modes_intro by apply hget_app3_1; rewrite seg_full'; reflexivity ].
   reflexivity.
 Qed.
+
+(* the two facts together, as stated in Properties/C13.v *)
+Lemma user_copy_fresh_frame h o h' o' : user_copy h o = Ok (h', o') ->
+  (forall x, x < length h -> hget h' x = hget h x) /\
+  (forall x, In x (reach h' o') -> length h <= x < length h').
+Proof. intros H. split; [apply (user_copy_frame _ _ _ _ H)|exact (user_copy_fresh _ _ _ _ H)]. Qed.
+Lemma channel_copy_fresh_frame h o h' o' : channel_copy h o = Ok (h', o') ->
+  (forall x, x < length h -> hget h' x = hget h x) /\
+  (forall x, In x (reach h' o') -> length h <= x < length h').
+Proof. intros H. split; [apply (channel_copy_frame _ _ _ _ H)|exact (channel_copy_fresh _ _ _ _ H)]. Qed.
